@@ -122,6 +122,15 @@ func entries() []entry {
 			dec.Decode(p.Interface())
 			return dec.Error
 		}},
+		{"Decode-non-default-settings", func(data []byte, simple bool, dest reflect.Type) error {
+			// every decoder setting at a non-default value: struct values instead of pointers,
+			// typed slices, interface-keyed maps, big numbers
+			dec := hio.NewDecoder(data).Simple(simple)
+			dec.LongType, dec.RealType, dec.MapType, dec.StructType, dec.ListType = hio.LongTypeBigInt, hio.RealTypeBigFloat, hio.MapTypeIIMap, hio.StructTypeValue, hio.ListTypeSlice
+			p := reflect.New(dest)
+			dec.Decode(p.Interface())
+			return dec.Error
+		}},
 	}
 }
 
@@ -368,7 +377,7 @@ func runJob(j job, ents []entry) (err error) {
 func (j job) describe() string {
 	switch j.kind {
 	case "io":
-		return fmt.Sprintf("io/%s simple=%v dest=%s", [...]string{"Unmarshal", "Decoder.Decode+Read", "FromReader"}[j.entry], j.simple, j.dest)
+		return fmt.Sprintf("io/%s simple=%v dest=%s", [...]string{"Unmarshal", "Decoder.Decode+Read", "FromReader", "Decode-non-default-settings"}[j.entry], j.simple, j.dest)
 	case "service":
 		return fmt.Sprintf("Service.Handle(missing-method handler=%v)", j.entry == 0)
 	case "jsonrpc-service":
@@ -476,7 +485,7 @@ func TestCheck(t *testing.T) {
 	svc3.AddInstanceMethods(svcObj{})
 	ents := entries()
 	dests := destTypes()
-	r.Meta("rule", "valid streams (C01 universe sample, hand-written streams using every tag, RPC requests and responses) are mutated: every truncation; every single-byte substitution from a 48-byte alphabet of tags/digits/delimiters/boundary bytes (exhaustive on streams <= 48 bytes in quick, <= 96 in thorough, sampled on longer ones); single insertions and deletions; grammar-aware replacement of every count/length/reference/class index by 22 hostile values; container tag swaps; seeded random byte strings. Each mutant is decoded into its own type, interface{} and seeded other destinations through Unmarshal, Decoder.Read (two values), reader mode, Service.Handle (9 published signatures, with and without missing-method handler) and ClientCodec.Decode (6 return-type sets). Monitors: recover (panic), child death (fatal error / OOM under ulimit -v), per-case watchdog (hang), heap bytes allocated per decode <= 1 MiB + 4096 B per input byte, thread CPU time per decode <= 250 ms + 2 us per input byte. Hand-written amplification literals (exponents of 5..20 digits in i/l/d tokens and in strings, 60 000-digit numbers, lists and maps nested 1 000 / 10 000 / 100 000 deep, closed and unclosed, 1 000 references to a 50 KB string or byte string, a 200-field class instantiated 300 times) are decoded into every destination under the same monitors. distinct_nontrivial = distinct mutated inputs (hashed) executed")
+	r.Meta("rule", "valid streams (C01 universe sample, hand-written streams using every tag, RPC requests and responses) are mutated: every truncation; every single-byte substitution from a 48-byte alphabet of tags/digits/delimiters/boundary bytes (exhaustive on streams <= 48 bytes in quick, <= 96 in thorough, sampled on longer ones); single insertions and deletions; grammar-aware replacement of every count/length/reference/class index by 22 hostile values; container tag swaps; seeded random byte strings. Each mutant is decoded into its own type, interface{} and seeded other destinations through Unmarshal, Decoder.Read (two values), reader mode, Service.Handle (9 published signatures, with and without missing-method handler) and ClientCodec.Decode (6 return-type sets). Monitors: recover (panic), child death (fatal error / OOM under ulimit -v), per-case watchdog (hang), heap bytes allocated per decode <= 1 MiB + 4096 B per input byte, thread CPU time per decode <= 250 ms + 2 us per input byte. Hand-written amplification literals (exponents of 5..20 digits in i/l/d tokens and in strings, 60 000-digit numbers, lists and maps nested 1 000 / 10 000 / 100 000 deep, closed and unclosed, 1 000 references to a 50 KB string or byte string, a 200-field class instantiated 300 times) are decoded into every destination under the same monitors. distinct_nontrivial = distinct mutated inputs (hashed) executed Added: a decode entry with every decoder setting at a non-default value (struct values, typed slices, interface-keyed maps, big numbers) for all hostile literals and a quarter of the mutants; objects of registered classes with slice/map/interface fields used as map keys.")
 	r.Meta("assumptions", []string{
 		"malformed input that is accepted without error is counted (stats.accepted), not reported: C04 is about crashes, hangs and over-allocation",
 		"inputs are at most 4 KiB (+ mutation); the allocation budget is linear in the input length",
@@ -542,7 +551,7 @@ func TestCheck(t *testing.T) {
 			}
 			for _, d := range ds {
 				for e := range ents {
-					if len(hl.data) > 1<<20 && e == 2 {
+					if len(hl.data) > 1<<20 && e >= 2 {
 						continue // 7-byte reads over megabytes only repeat what the in-memory entries show, slowly
 					}
 					for _, simple := range []bool{false, true} {
@@ -625,6 +634,9 @@ func ioCase(c *h.Case, s seedStream, ents []entry, dests []reflect.Type, maxExh 
 					jobs = append(jobs, job{data: m, simple: s.simple, dest: d, entry: e, kind: "io"})
 					if di == 0 && rng.Intn(8) == 0 {
 						jobs = append(jobs, job{data: m, simple: !s.simple, dest: d, entry: 0, kind: "io"})
+					}
+					if di <= 1 && rng.Intn(4) == 0 {
+						jobs = append(jobs, job{data: m, simple: s.simple, dest: d, entry: 3, kind: "io"})
 					}
 				}
 				c.R.Distinct(string(m))
@@ -726,6 +738,16 @@ func hostileLiterals() []hostile {
 		add("string-with-exponent-"+e, fmt.Sprintf("s%d\"%s\"", len(lit), lit))
 		lit = "1/1e" + e
 		add("string-ratio-with-exponent-"+e, fmt.Sprintf("s%d\"%s\"", len(lit), lit))
+	}
+	// objects of registered classes with slice, map and interface fields as keys of maps (struct
+	// values are unhashable when a field is), decoded as values and as pointers
+	for _, body := range []string{`a1{n}`, `a0{}`, `n`, `m0{}`, `s1"x"`, `a1{a1{1}}`} {
+		for _, field := range []string{"kids", "m", "any", "name", "arr"} {
+			lit := fmt.Sprintf(`c4"Tree"1{s%d"%s"}o0{%s}`, len(field), field, body)
+			add("object-as-map-key-"+field+"-"+body, "m1{"+lit+"t}")
+			add("object-as-map-key-twice-"+field+"-"+body, "m2{"+lit+"1o0{"+body+"}2}")
+			add("object-in-list-as-map-key-"+field+"-"+body, "m1{a1{"+lit+"}t}")
+		}
 	}
 	add("double-many-digits", "d0."+rep("0", 60000)+"1;")
 	add("double-many-integer-digits", "d"+rep("9", 60000)+";")
